@@ -162,13 +162,17 @@ impl Monitor for C04 {
         // the random trailers are a function of the input alone, so that a replay is exact
         if stream.starts_with("v1-") {
             let x = v1_case(stream, idx, seed);
-            let mut rng = Rng::new(hash_bytes(&x));
-            judge(&x, &mut rng, rec, "v1");
+            spec::sib::run_v1(&x, idx, 8, |x| {
+                let mut rng = Rng::new(hash_bytes(x));
+                judge(x, &mut rng, rec, "v1")
+            });
         } else {
             let mut b = Vec::new();
             v2_case(stream, idx, seed, &mut b);
-            let mut rng = Rng::new(hash_bytes(&b));
-            judge(&b, &mut rng, rec, "v2");
+            spec::sib::run_v2(&b, idx, 8, |x| {
+                let mut rng = Rng::new(hash_bytes(x));
+                judge(x, &mut rng, rec, "v2")
+            });
         }
     }
     fn floor(&self, _tier: Tier) -> Vec<&'static str> {
